@@ -216,6 +216,13 @@ class _Handler(object):
             io.error_line("<info>err-%s</info>" % name, fl)
         q = Question("Name?", "dflt")
         rec["answer"] = q.ask(io)
+        if not io.is_interactive():
+            # questions WITH a validator (every choice question has one): the default itself is the answer
+            from clikit.ui.components.choice_question import ChoiceQuestion
+            cq = ChoiceQuestion("Colour?", ["red", "green", "blue"], "1")
+            vq = Question("Port?", "8080")
+            vq.set_validator(int)
+            rec["answers_ni"] = [cq.ask(io), vq.ask(io)]
         # components that move the cursor on a decorated output (a section that is overwritten): with the no-ANSI
         # switch they must not emit a single escape byte either
         sec = io.section()
@@ -466,6 +473,8 @@ def oracle(case, obs):
             return "the handler saw quiet=%s verbosity=%s interactive=%s" % (r["quiet"], r["verbosity"], r["interactive"])
         if r["answer"] != ("dflt" if no_int else "typed"):
             return "question answered %r with interaction %s" % (r["answer"], "off" if no_int else "on")
+        if "answers_ni" in r and r["answers_ni"] != ["1", "8080"]:
+            return "no interaction: questions with a validator answered %r, their defaults are ['1', '8080']" % (r["answers_ni"],)
     plain_out = re.sub(r"\x1b\[[0-9;]*m", "", obs["out"])
     helpsw = has("-h") or has("--help")
     versw = has("--version") or has("-V")
